@@ -497,3 +497,58 @@ def r_mainloop(idx, rep, rule="R-MAINLOOP"):
         return {t.strip() for t in ls if t.strip() in ("_ = (_ + 1) / (_ + 3)", "_ = _ * _ + (1.0 - _) * _")}
     rep.check(mom(la) == mom(lb) and len(mom(la)) == 2, rule, "%s|plain momentum block" % a.key, a.where,
               "the non-normalised momentum update differs between the variants: %s vs %s" % (sorted(mom(la)), sorted(mom(lb))), "identical")
+
+
+def r_supportsibling(idx, rep, rule="R-SUPPORTSIBLING"):
+    """box / capsule / cylinder support functions exist twice (generic collider objects; primitives data arrays with pre-halved sizes).
+    Up to how the shape data is read (attribute vs array slot, size/2 vs stored half size) they are the same code: a one-sided edit makes the
+    two Nesterov variants answer differently for the same pair."""
+    import copy
+    import difflib
+    import re
+    rep.rule(rule, "the specialised support functions of the two Nesterov files (box, capsule, cylinder) have the same statement shapes once shape-data "
+                   "access (obj.attr / data[k], size / 2 vs stored half size) is abstracted away", floor=3)
+    a = idx.module(N1)
+    b = idx.module(N2)
+
+    class _Data(ast.NodeTransformer):
+        def __init__(self, p):
+            self.p = p
+
+        def visit_Attribute(self, n):
+            self.generic_visit(n)
+            if isinstance(n.value, ast.Name) and n.value.id in (self.p, "DATA"):
+                return ast.Name(id="DATA", ctx=ast.Load())
+            return n
+
+        def visit_Subscript(self, n):
+            self.generic_visit(n)
+            if isinstance(n.value, ast.Name) and n.value.id in (self.p, "DATA"):
+                return ast.Name(id="DATA", ctx=ast.Load())
+            return n
+
+        def visit_BinOp(self, n):
+            self.generic_visit(n)
+            # DATA / 2  ==  stored half size
+            if isinstance(n.op, ast.Div) and const(n.right) in (2, 2.0):
+                inner = n.left.operand if isinstance(n.left, ast.UnaryOp) and isinstance(n.left.op, ast.USub) else n.left
+                if isinstance(inner, ast.Name) and inner.id == "DATA":
+                    return n.left
+            if isinstance(n.op, ast.Mult) and const(n.left) == 0.5 and isinstance(n.right, ast.Name) and n.right.id == "DATA":
+                return n.right
+            return n
+
+    def shape(f):
+        node = _Data(f.params()[1]).visit(copy.deepcopy(f.node))
+        L = {n.id for n in ast.walk(node) if isinstance(n, ast.Name) and isinstance(n.ctx, ast.Store)} | set(f.params())
+        body = [s for s in node.body if not (isinstance(s, ast.Expr) and isinstance(s.value, ast.Constant))]
+        txt = "\n".join(ast.unparse(s) for s in body)
+        return re.sub(r"[A-Za-z_][A-Za-z_0-9]*", lambda m: "_" if m.group(0) in L else m.group(0), txt).splitlines()
+    for name in ("box_support", "capsule_support", "cylinder_support"):
+        fa, fb = a.functions.get(name), b.functions.get(name)
+        if fa is None or fb is None:
+            raise AnalysisError("%s missing in one of the Nesterov files" % name)
+        d = [l for l in difflib.unified_diff(shape(fa), shape(fb), lineterm="", n=0) if not l.startswith(("---", "+++", "@@"))]
+        rep.check(not d, rule, "%s|same shape as the primitives variant" % fa.key, fa.where,
+                  "%s differs between the generic and the primitives file beyond data access: %s (`-` generic, `+` primitives; names shown as `_`, shape data as DATA) — "
+                  "one copy was edited alone" % (name, d[:6]), "%d lines" % len(shape(fa)))
